@@ -12,6 +12,7 @@ import (
 	"verif/engine/deephash"
 	"verif/engine/evid"
 	"verif/engine/sched"
+	"verif/engine/shard"
 	"verif/fixtures"
 	"verif/mcbor"
 	"verif/refmodel"
@@ -184,7 +185,59 @@ func c18ClaimsPair(c *choice.Ctx, st *Stats, build func() psatoken.IClaims, labe
 			c.Failf("C18:not-repeatable:"+op.name, "%s repeated gives a different result (%s)\n 1st %s\n 2nd %s", op.name, label, clipS(res), clipS(again))
 		}
 	}
+	if i1 == i2 {
+		otherActivityLight()
+		if s1 := deephash.Take(obj, snapOpts); s1.Canon != s0.Canon {
+			c.Failf("C18:changed-by-unrelated-activity:"+claimsReadOps[i2].name, "after %s, activity on unrelated objects changed this claims-set (%s)", claimsReadOps[i2].name, label)
+		} else if after := claimsReadOps[i2].run(obj); after != base[1] {
+			c.Failf("C18:history-dependent:"+claimsReadOps[i2].name+":after-unrelated-activity", "%s gives a different result after activity on unrelated objects (%s)", claimsReadOps[i2].name, label)
+		}
+	}
 }
+
+// otherActivity exercises the library on objects unrelated to the one under observation.
+func otherActivity() {
+	cl := c02Claims()
+	k := fixtures.Get("ES256", 2)
+	for _, a := range []*refmodel.Claims{cl[3], cl[1], cl[0]} {
+		x, err := realise(a)
+		if err != nil {
+			continue
+		}
+		_, _ = psatoken.EncodeClaimsToCBOR(x)
+		_, _ = psatoken.EncodeClaimsToJSON(x)
+		_, _ = psatoken.ValidateAndEncodeClaimsToCBOR(x)
+		_ = x.Validate()
+		ev := &psatoken.Evidence{}
+		if ev.SetClaims(x) == nil {
+			if tok, err := ev.ValidateAndSign(k.Signer()); err == nil {
+				if ev2, err := psatoken.DecodeEvidenceFromCOSE(tok); err == nil {
+					_ = ev2.Verify(k.Pub)
+					_, _ = ev2.MarshalJSON()
+				}
+			}
+		}
+		_, _ = psatoken.DecodeClaimsFromCBOR(mcbor.Encode(wireTree(a, true)))
+		_, _ = psatoken.DecodeClaimsFromJSON(wireJSON(a))
+	}
+}
+
+// otherActivityLight: encode / decode unrelated claims-sets (no signing).
+func otherActivityLight() {
+	cl := c02Claims()
+	for _, a := range []*refmodel.Claims{cl[3], cl[1]} {
+		if x, err := realise(a); err == nil {
+			_, _ = psatoken.EncodeClaimsToCBOR(x)
+			_, _ = psatoken.EncodeClaimsToJSON(x)
+		}
+		_, _ = psatoken.DecodeClaimsFromCBOR(mcbor.Encode(wireTree(a, true)))
+	}
+}
+
+// c18Shard: worker index / count (exploration of hooked scenarios is single-goroutine per process, so C18 is sharded over processes).
+var c18W, c18N = 0, 1
+
+func c18Mine(x int) bool { return c18N <= 1 || x%c18N == c18W }
 
 func clipS(s string) string {
 	if len(s) > 600 {
@@ -241,6 +294,9 @@ func init() {
 				return func(c *choice.Ctx) {
 					how := c.Choose("construction", 3)
 					i1 := c.Choose("op1", len(claimsReadOps))
+					if !c18Mine(how*len(claimsReadOps) + i1) {
+						return
+					}
 					i2 := c.Choose("op2", len(claimsReadOps))
 					a := g.gen(c, "")
 					var build func() psatoken.IClaims
@@ -292,6 +348,9 @@ func init() {
 			kind := c.Choose("kind", 3) // 0 decoded, 1 signing, 2 decoded from a token whose signature is broken
 			ci := c.Choose("claims", len(seeds))
 			i1 := c.Choose("op1", len(ops))
+			if !c18Mine(kind*7 + ci*3 + i1) {
+				return
+			}
 			i2 := c.Choose("op2", len(ops))
 			build := func() *psatoken.Evidence {
 				switch kind {
@@ -343,6 +402,16 @@ func init() {
 					c.Failf("C18:not-repeatable:Evidence."+op.name, "%s repeated gives a different result", op.name)
 				}
 			}
+			if i1 != i2 {
+				c18stats.Outcome("evidence-pair")
+				return
+			}
+			otherActivity()
+			if s1 := deephash.Take(obj, snapOpts); s1.Canon != s0.Canon {
+				c.Failf(fmt.Sprintf("C18:changed-by-unrelated-activity:Evidence-kind%d", kind), "activity on unrelated objects (encoding / signing / decoding other claims-sets) changed this Evidence")
+			} else if after := ops[i2].run(obj); after != base[1] {
+				c.Failf("C18:history-dependent:Evidence."+ops[i2].name+":after-unrelated-activity", "%s gives a different result after activity on unrelated objects\n got  %s\n want %s", ops[i2].name, clipS(after), clipS(base[1]))
+			}
 			c18stats.Outcome("evidence-pair")
 		}, nil
 	}
@@ -355,6 +424,9 @@ func init() {
 			ci := c.Choose("claims", len(seeds))
 			entry := c.Choose("entry", 7)
 			mode := c.Choose("scribble", 3)
+			if !c18Mine(ci*7 + entry) {
+				return
+			}
 			a := seeds[ci]
 			cborIn := mcbor.Encode(wireTree(a, true))
 			jsonIn := wireJSON(a)
@@ -392,9 +464,33 @@ func init() {
 		}, nil
 	}
 	Checks["C18"] = func(r *evid.Run) {
+		n := 16
+		if !instrOn {
+			n = 4
+		}
+		dl := deadline(r, 50*time.Second, 15*time.Minute)
+		for _, wr := range shard.Run(n, []string{"C18", r.Tier}, 120*time.Second, dl) {
+			var ex evid.Export
+			if wr.Died {
+				r.Set("exhaustive", false)
+				r.HarnessError(fmt.Sprintf("C18 worker %d died (exit %d): %s", wr.Index, wr.ExitCode, lastLines(string(wr.Stderr), 6)))
+				continue
+			}
+			if err := shard.Decode(wr.Output, &ex); err != nil {
+				r.HarnessError(fmt.Sprintf("C18 worker %d: %v: %s", wr.Index, err, lastLines(string(wr.Stderr), 4)))
+				continue
+			}
+			r.Import(ex)
+		}
+		c18Finish(r)
+	}
+	Workers["C18"] = func(r *evid.Run, w, n int) {
+		c18W, c18N = w, n
 		registerStandardExt()
 		c18stats = NewStats()
 		dl := deadline(r, 50*time.Second, 15*time.Minute)
+		exploreChoiceOpts(r, "c18.evidence", -1, dl, 1)
+		exploreChoiceOpts(r, "c18.alias", -1, dl, 1)
 		b := 3 // construction/op1/op2 are choices too: bound 3 = every op pair on the baseline object + every single op on every 1-deviation object
 		if thorough(r) {
 			b = 4
@@ -404,12 +500,19 @@ func init() {
 				if !thorough(r) && bl >= 2 {
 					continue
 				}
-				exploreChoiceOpts(r, fmt.Sprintf("c18.claims.p%d.b%d", p, bl), b, dl, hookWorkers())
+				exploreChoiceOpts(r, fmt.Sprintf("c18.claims.p%d.b%d", p, bl), b, dl, 1)
 			}
 		}
-		exploreChoiceOpts(r, "c18.evidence", -1, dl, hookWorkers())
-		exploreChoice(r, "c18.alias", -1, dl)
 		c18stats.Publish(r)
+	}
+}
+
+func c18Finish(r *evid.Run) {
+	{
+		b := 3
+		if thorough(r) {
+			b = 4
+		}
 		for k, v := range instrInfo() {
 			r.Set(k, v)
 		}
